@@ -236,6 +236,17 @@ def panic_suite(tier, seed, sid0):
                                          "panic_at": k, "unwind": rng.random() < 0.4}] + sc["threads"][t][:1]
                     sc["tag"] = {"suite": "panic_closure", "k": k}
                     out.append(sc)
+    # a closure panics early while plenty of elements are left, and a guard of the caller pulls once more while
+    # the panic unwinds; the other threads must still get (or see dropped) everything else
+    for kind in ["iter", "refiter", "cloned_iter", "vec", "slice", "range"]:
+        for _ in range(reps * 4):
+            ln = rng.choice([4, 5, 6])
+            t1 = [{"op": rng.choice(["foreach", "eforeach", "fold"]), "n": rng.choice([1, 2, 3]), "panic_at": rng.choice([1, 1, 2]), "unwind": True}]
+            t2 = [rng.choice([{"op": "foreach", "n": rng.choice([1, 2])}, {"op": "values"}, {"op": "fold", "n": 3}])]
+            sc = {"id": sid0 + len(out), "kind": kind, "len": ln, "hint": "exact", "threads": [t1, t2],
+                  "policy": rng.choice(["rr", "rand", "sticky"]), "seed": rng.randrange(1 << 30),
+                  "post": [{"op": "next"}, {"op": "hasmore"}], "tag": {"suite": "panic_unwind"}}
+            out.append(sc)
     # the k-th clone of an element panics (cloned adaptors), with a scheduling point inside clone()
     for kind in ["cloned_slice", "cloned_iter"]:
         for ln in (2, 3, 4):
